@@ -2,9 +2,9 @@
 package c06
 
 import (
-	"github.com/sdcio/yang-parser/xpath/grammars/expr"
 	"encoding/json"
 	"fmt"
+	"github.com/sdcio/yang-parser/xpath/grammars/expr"
 	"sort"
 	"strings"
 
@@ -36,7 +36,10 @@ func init() {
 }
 
 var compileExprs = []string{"1", "concat('a', 'b')", "contains(a, 'x')", "not(true())", "1 +", "foo(1)"}
-var machineExprs = []string{"a = 'x'", "/l[k = current()/../x]/v", "string-length(concat(a, b))", "l[k = ../x][j = 'c']/v", "vf-probe(string(a))"}
+var machineExprs = []string{"a = 'x'", "/l[k = current()/../x]/v", "string-length(concat(a, b))", "l[k = ../x][j = 'c']/v", "vf-probe(string(a))",
+	// a predicate inside a predicate (not evaluated correctly by this code base - consistently so: what
+	// matters here is that every run of the machine gives the same answer)
+	"/l[k = /l3[j = current()/../x]/r]/v"}
 
 // customMachine is the index of the machine that calls a registered custom (plugin) function.
 const customMachine = 4
@@ -79,9 +82,10 @@ func compileMachine(i int) *xpath.Machine {
 }
 
 type op struct {
-	Kind string `json:"kind"` // compile | run | runfail
-	Arg  int    `json:"arg"`
-	Ctx  int    `json:"ctx,omitempty"` // run: which context position (the data values depend on it)
+	Kind  string `json:"kind"` // compile | run | runfail
+	Arg   int    `json:"arg"`
+	Ctx   int    `json:"ctx,omitempty"`   // run: which context position (the data values depend on it)
+	Fault int    `json:"fault,omitempty"` // runfail: which data-tree callback fails (0 = the first)
 }
 
 func (o op) String() string {
@@ -90,6 +94,9 @@ func (o op) String() string {
 	}
 	if o.Kind == "compile" {
 		return "compile(" + compileExprs[o.Arg] + ")"
+	}
+	if o.Fault > 0 {
+		return fmt.Sprintf("%s(%s @ctx%d, callback %d fails)", o.Kind, machineExprs[o.Arg], o.Ctx, 1+o.Fault)
 	}
 	return fmt.Sprintf("%s(%s @ctx%d)", o.Kind, machineExprs[o.Arg], o.Ctx)
 }
@@ -163,7 +170,7 @@ func performOn(o op, machines []*xpath.Machine) string {
 	default:
 		t := mock.NewTree()
 		if o.Kind == "runfail" {
-			t.FailAt = map[int]bool{1: true}
+			t.FailAt = map[int]bool{1 + o.Fault: true}
 		}
 		obs := xpx.RunMachineDebug(machines[o.Arg], t.At(ctxPositions[o.Ctx]...), o.Kind == "rundebug")
 		return obs.String() + " calls=" + strings.Join(t.CallStrings(), ",") + " listing=" + machines[o.Arg].PrintMachine()
@@ -428,6 +435,8 @@ func historyAlphabet() []op {
 		a = append(a, op{Kind: "run", Arg: i}, op{Kind: "run", Arg: i, Ctx: 1})
 	}
 	a = append(a, op{Kind: "runfail", Arg: 0}, op{Kind: "runfail", Arg: 1}, op{Kind: "runfail", Arg: 3, Ctx: 1})
+	// runs that die at a later callback: between the predicates of a step, between an inner and an outer ']'
+	a = append(a, op{Kind: "runfail", Arg: 3, Fault: 2}, op{Kind: "runfail", Arg: 5, Fault: 1}, op{Kind: "runfail", Arg: 5, Fault: 2}, op{Kind: "runfail", Arg: 5, Fault: 3})
 	// runs with the context's debug listing on: a diagnostic aid that must leave the machine as it was
 	a = append(a, op{Kind: "rundebug", Arg: 0}, op{Kind: "rundebug", Arg: 2}, op{Kind: "rundebug", Arg: 3, Ctx: 1})
 	// the custom function of machine 4 is registered again with another definition (other arity too)
